@@ -425,6 +425,18 @@ theorem commutes_with_general_iff_partial (atol rtol : Rat) (ha : 0 ≤ atol) (n
       ∀ s t, s < 2 ^ n → melM (mmul a b) t s = melM (mmul b a) t s :=
   commutes_general_iff atol rtol ha n a b sa sb hexact
 
+/-- full-strength form of the previous theorem: the exact-regime hypothesis is the decidable test
+`majExactB` that the driver evaluates on every generated input (`exact_regime` in the answer of
+`c02.commutes`; the harness counts the inputs on which it holds): under it,
+`self * other == other * self` is True iff the two products have the same Spec matrix elements. -/
+theorem commutes_with_general_iff (atol rtol : Rat) (ha : 0 ≤ atol) (n : Nat) (a b : MOp)
+    (sa : ∀ e ∈ a, e.1.Pairwise (· < ·) ∧ ∀ m ∈ e.1, m < 2 * n)
+    (sb : ∀ e ∈ b, e.1.Pairwise (· < ·) ∧ ∀ m ∈ e.1, m < 2 * n)
+    (hx : majExactB atol rtol (mmul a b) (mmul b a) = true) :
+    majEq atol rtol (mmul a b) (mmul b a) = true ↔
+      ∀ s t, s < 2 ^ n → melM (mmul a b) t s = melM (mmul b a) t s :=
+  commutes_general_iff_exactB atol rtol ha n a b sa sb hx
+
 /-! ## `is_hermitian(InteractionOperator)` -/
 
 /-- FULL STATEMENT: `is_hermitian(InteractionOperator)` is True iff the denoted operator is
